@@ -278,6 +278,157 @@ def gen_struct_program(rng) -> str:
     return "\n".join(out)
 
 
+# --- affine-drop generator: values of droppable non-copyable types that are implicitly dropped, in every type
+#     shape `requires_drop` distinguishes (extension type / its type args, multi-row sums, single-row sums,
+#     type variables with a linear bound) and every way a value can end up unused
+def gen_drop_program(rng) -> str:
+    structs: list[str] = []
+    helpers: dict[str, str] = {}
+
+    def base():
+        k = rng.randrange(1, 4)
+        r = rng.random()
+        if r < 0.45:
+            return f"array[int, {k}]", "array(" + ", ".join(str(rng.randrange(9)) for _ in range(k)) + ")"
+        if r < 0.65:
+            return f"array[float, {k}]", "array(" + ", ".join(f"{rng.randrange(9)}.5" for _ in range(k)) + ")"
+        if r < 0.8:
+            return f"array[bool, {k}]", "array(" + ", ".join(rng.choice(["True", "False"]) for _ in range(k)) + ")"
+        return "array[array[int, 2], 2]", f"array(array({rng.randrange(9)}, 1), array(2, {rng.randrange(9)}))"
+
+    def cls(depth):
+        """classical filler (type, expr)"""
+        return rng.choice([("int", str(rng.randrange(9))), ("bool", "True"), ("float", "1.5")])
+
+    def affine(depth):
+        """(type text, expression text) of a droppable, non-copyable value"""
+        if depth == 0 or rng.random() < 0.2:
+            return base()
+        r = rng.random()
+        t, e = affine(depth - 1)
+        if r < 0.22:
+            return (f"Option[{t}]", f"some({e})") if rng.random() < 0.75 else (f"Option[{t}]", "nothing()")
+        if r < 0.42:
+            c, ce = cls(depth)
+            if rng.random() < 0.5:
+                return (f"Either[{t}, {c}]", f"left({e})") if rng.random() < 0.6 else (f"Either[{t}, {c}]", f"right({ce})")
+            return (f"Either[{c}, {t}]", f"right({e})") if rng.random() < 0.6 else (f"Either[{c}, {t}]", f"left({ce})")
+        if r < 0.5:
+            t2, e2 = affine(depth - 1)
+            return f"Either[{t}, {t2}]", (f"left({e})" if rng.random() < 0.5 else f"right({e2})")
+        if r < 0.72:
+            c, ce = cls(depth)
+            return rng.choice([(f"tuple[{t}, {c}]", f"({e}, {ce})"), (f"tuple[{c}, {t}]", f"({ce}, {e})"),
+                               (f"tuple[{c}, {t}, {c}]", f"({ce}, {e}, {ce})")])
+        if r < 0.9:
+            name = f"D{len(structs)}"
+            c, ce = cls(depth)
+            structs.append(f"@guppy.struct\nclass {name}:\n    a: {t}\n    n: {c}\n")
+            return name, f"{name}({e}, {ce})"
+        return t, e
+
+    def eat(t):
+        if t not in helpers:
+            helpers[t] = f"eat{len(helpers)}"
+        return helpers[t]
+
+    lines: list[str] = []
+    params = ["c: bool", "n: int"]
+    body: list[str] = ["    k = n"]
+    nv = [0]
+
+    def var():
+        nv[0] += 1
+        return f"v{nv[0]}"
+
+    for _ in range(rng.randrange(0, 3)):          # unused / conditionally used owned arguments
+        t, _e = affine(rng.randrange(0, 3))
+        a = f"a{len(params)}"
+        params.append(f"{a}: {t} @owned")
+        r = rng.random()
+        if r < 0.25:
+            body += ["    if c:", f"        {eat(t)}({a})"]
+        elif r < 0.4:
+            body += ["    if k > 2:", "        return k"]
+
+    def stmt(ind, depth):
+        t, e = affine(rng.randrange(0, 3))
+        v = var()
+        r = rng.random()
+        out = []
+        if r < 0.16:                                # unused local
+            out = [f"{ind}{v}: {t} = {e}"]
+        elif r < 0.30:                              # dropped on one branch only
+            out = [f"{ind}{v}: {t} = {e}", f"{ind}if {rng.choice(['c', 'k > 3', 'not c'])}:", f"{ind}    {eat(t)}({v})"]
+            if rng.random() < 0.4:
+                out += [f"{ind}else:", f"{ind}    k += 1"]
+        elif r < 0.42:                              # overwritten
+            if any(w in e for w in ("left(", "right(", "nothing(")):   # needs the annotation to infer: go through a helper
+                mk = f"mk{nv[0]}"
+                lines.append(f"@guppy\\ndef {mk}() -> {t}:\\n    return {e}\\n")
+                e2 = f"{mk}()"
+            else:
+                e2 = e
+            out = [f"{ind}{v}: {t} = {e}", f"{ind}{v} = {e2}"]
+            if rng.random() < 0.5:
+                out += [f"{ind}{eat(t)}({v})"]
+        elif r < 0.52:                              # ignored call result
+            mk = f"mk{nv[0]}"
+            lines.append(f"@guppy\ndef {mk}() -> {t}:\n    return {e}\n")
+            out = [f"{ind}{mk}()"] if rng.random() < 0.5 else [f"{ind}{v} = {mk}()"]
+        elif r < 0.62:                              # through generic helpers with a Drop-only bound
+            out = [f"{ind}{v}: {t} = {e}", rng.choice([f"{ind}k = first(k, {v})", f"{ind}keep({v})", f"{ind}{v}b = ident({v})"])]
+        elif r < 0.72:                              # early return while alive
+            out = [f"{ind}{v}: {t} = {e}", f"{ind}if k == {rng.randrange(5)}:", f"{ind}    return k", f"{ind}{eat(t)}({v})"] if ind == "    " else [f"{ind}{v}: {t} = {e}"]
+        elif r < 0.82 and t.startswith("tuple["):    # partially used tuple
+            arity = t.count(",") - t[6:].count("[") * 0
+            names = [f"{v}_{i}" for i in range(3 if e.count(",") >= 2 and t.startswith("tuple[") and len(_split_top(t[6:-1])) == 3 else 2)]
+            out = [f"{ind}{v}: {t} = {e}", f"{ind}{', '.join(names)} = {v}"]
+        elif r < 0.9 and depth > 0:                 # inside loops
+            out = [f"{ind}for i in range({rng.randrange(1, 4)}):"] + stmt(ind + "    ", depth - 1)
+            if rng.random() < 0.3:
+                out += [f"{ind}    if k > 100:", f"{ind}        break"]
+        elif depth > 0:
+            out = [f"{ind}if {rng.choice(['c', 'k > 1'])}:"] + stmt(ind + "    ", depth - 1) + [f"{ind}else:"] + stmt(ind + "    ", depth - 1)
+        else:
+            out = [f"{ind}{v}: {t} = {e}"]
+        return out
+
+    for _ in range(rng.randrange(2, 6)):
+        body += stmt("    ", 2)
+    body.append("    return k")
+    hdr = [
+        "from guppylang.std.option import Option, nothing, some",
+        "from guppylang.std.either import Either, left, right",
+        "",
+        'A = guppy.type_var("A", copyable=False, droppable=True)',
+        'C = guppy.type_var("C")',
+        "",
+        "@guppy", "def first(x: C, y: A @owned) -> C:", "    return x", "",
+        "@guppy", "def keep(y: A @owned) -> None:", "    pass", "",
+        "@guppy", "def ident(y: A @owned) -> A:", "    return y", "",
+    ]
+    eats = [f"@guppy\ndef {name}(x: {t} @owned) -> None:\n    pass\n" for t, name in helpers.items()]
+    src = "\n".join(hdr) + "\n" + "\n".join(structs) + "\n" + "\n".join(eats) + "\n" + "\n".join(lines) + "\n"
+    src += "@guppy\ndef main(" + ", ".join(params) + ") -> int:\n" + "\n".join(body) + "\n"
+    return src.replace("\\n", "\n")
+
+
+def _split_top(s: str) -> list[str]:
+    out, depth, cur = [], 0, ""
+    for ch in s:
+        if ch == "[":
+            depth += 1
+        elif ch == "]":
+            depth -= 1
+        if ch == "," and depth == 0:
+            out.append(cur)
+            cur = ""
+        else:
+            cur += ch
+    return out + [cur]
+
+
 def _programs(ctx):
     """yields (tag, src)"""
     if os.path.isdir(CORPUS):
@@ -290,6 +441,8 @@ def _programs(ctx):
     n_gen = ctx.n(60, 1200)
     for _ in range(n_struct):
         yield "structgen", gen_struct_program(ctx.rng)
+    for _ in range(ctx.n(60, 900)):
+        yield "dropgen", gen_drop_program(ctx.rng)
     try:
         import c01_gen
     except Exception as e:  # noqa: BLE001
